@@ -12,6 +12,7 @@ package server
 import (
 	"encoding/binary"
 	"fmt"
+	"runtime/debug"
 	"sort"
 	"strings"
 	"testing"
@@ -43,10 +44,20 @@ type zvC18Case struct {
 	Tail    []int  `json:"tail_prefix_lens"`
 	Tick    bool   `json:"flush_by_ticker"`
 	Regime  string `json:"regime"`
+	// a second set of prefixes queued at the same time (interleaved) whose path differs from the first in one attribute
+	Second string `json:"second_set_differs_in"`
+	N2     int    `json:"second_set_count"`
 }
 
 func (c zvC18Case) String() string {
-	return fmt.Sprintf("%s addpath=%v %s as_path=%d ASNs unknown_attr=%d bytes, %d x /%d + tail %v, flush by ticker=%v (%s)", zvC18Fams[c.Fam], c.AP, zvC18Profiles[c.Profile], c.ASNs, c.Unk, c.N, c.PLen, c.Tail, c.Tick, c.Regime)
+	return fmt.Sprintf("%s addpath=%v %s as_path=%d ASNs unknown_attr=%d bytes, %d x /%d + tail %v, flush by ticker=%v (%s)", zvC18Fams[c.Fam], c.AP, zvC18Profiles[c.Profile], c.ASNs, c.Unk, c.N, c.PLen, c.Tail, c.Tick, c.Regime) + c.secondString()
+}
+
+func (c zvC18Case) secondString() string {
+	if c.Second == "" {
+		return ""
+	}
+	return fmt.Sprintf(" + second set of %d prefixes, path differs in %s", c.N2, c.Second)
 }
 
 func (c zvC18Case) v6() bool { return c.Fam == 2 }
@@ -101,15 +112,17 @@ func zvC18NLRISize(plen int, ap bool) int {
 }
 
 type zvC18Pfx struct {
-	P    *bnet.Prefix
-	Key  string
-	Size int
+	P      *bnet.Prefix
+	Key    string
+	Size   int
+	Second bool // belongs to the second set
 }
 
 // prefixes returns the queued prefixes in queueing order, or nil if the case would need one prefix twice.
 func (c zvC18Case) prefixes() []zvC18Pfx {
 	var out []zvC18Pfx
 	seen := map[string]bool{}
+	second := false
 	add := func(plen, i int) bool {
 		if i < 0 || i >= zvC18Avail(plen) {
 			return false
@@ -119,14 +132,20 @@ func (c zvC18Case) prefixes() []zvC18Pfx {
 			return false
 		}
 		seen[k] = true
-		out = append(out, zvC18Pfx{p, k, zvC18NLRISize(plen, c.AP)})
+		out = append(out, zvC18Pfx{p, k, zvC18NLRISize(plen, c.AP), second})
 		return true
 	}
-	for i := 0; i < c.N; i++ {
-		if !add(c.PLen, i) {
+	for i := 0; i < c.N || (c.Second != "" && i < c.N2); i++ {
+		second = false
+		if i < c.N && !add(c.PLen, i) {
+			return nil
+		}
+		second = true
+		if c.Second != "" && i < c.N2 && !add(c.PLen, zvC18Avail(c.PLen)/2+i) {
 			return nil
 		}
 	}
+	second = false
 	for j, pl := range c.Tail {
 		if !add(pl, zvC18Avail(pl)-1-j) {
 			return nil
@@ -191,7 +210,11 @@ func zvC18RichCluster() []uint32 {
 	return out
 }
 
-func (c zvC18Case) path() *route.Path {
+func (c zvC18Case) path() *route.Path { return c.pathOf(false) }
+
+var zvC18SecondKinds = []string{"unknown-attribute-value", "additional-unknown-attribute", "aggregator", "atomic-aggregate", "med", "communities", "as-path"}
+
+func (c zvC18Case) pathOf(second bool) *route.Path {
 	p := &route.Path{Type: route.BGPPathType, BGPPath: route.NewBGPPath()}
 	a := p.BGPPath.BGPPathA
 	a.Source = c.addr(30)
@@ -224,6 +247,29 @@ func (c zvC18Case) path() *route.Path {
 		p.BGPPath.LargeCommunities = &lc
 		p.BGPPath.UnknownAttributes = append(p.BGPPath.UnknownAttributes, types.UnknownPathAttribute{Optional: true, Transitive: true, TypeCode: 201, Value: []byte{1, 2, 3, 4, 5}})
 	}
+	if second {
+		switch c.Second {
+		case "unknown-attribute-value":
+			p.BGPPath.UnknownAttributes[0].Value[0] ^= 0xff
+		case "additional-unknown-attribute":
+			p.BGPPath.UnknownAttributes = append(p.BGPPath.UnknownAttributes, types.UnknownPathAttribute{Optional: true, Transitive: true, TypeCode: 202, Value: []byte{9}})
+		case "aggregator":
+			a.Aggregator = &types.Aggregator{Address: 0x0a000064, ASN: 64998}
+		case "atomic-aggregate":
+			a.AtomicAggregate = !a.AtomicAggregate
+		case "med":
+			a.MED = 77
+		case "communities":
+			cs := types.Communities{}
+			if p.BGPPath.Communities != nil {
+				cs = append(cs, *p.BGPPath.Communities...)
+			}
+			cs = append(cs, 65000<<16|999)
+			p.BGPPath.Communities = &cs
+		case "as-path":
+			(*p.BGPPath.ASPath)[0].ASNs[0] = 64000
+		}
+	}
 	return p
 }
 
@@ -236,10 +282,15 @@ func zvC18U32s(v ...uint32) []byte {
 }
 
 // expected returns the attributes every announcing UPDATE must carry (type -> value; NEXT_HOP only on the classic session) and the next hop.
-func (c zvC18Case) expected() (map[byte][]byte, []byte) {
+func (c zvC18Case) expected() (map[byte][]byte, []byte) { return c.expectedOf(false) }
+
+func (c zvC18Case) expectedOf(second bool) (map[byte][]byte, []byte) {
 	e := map[byte][]byte{}
 	e[1] = []byte{0}
 	segs := c.segments()
+	if second && c.Second == "as-path" {
+		segs[0].ASNs[0] = 64000
+	}
 	nh := c.addr(30).Bytes()
 	if c.Profile == 2 {
 		// exported over eBGP: local AS prepended (new segment if the first is full), next hop = local address
@@ -278,6 +329,28 @@ func (c zvC18Case) expected() (map[byte][]byte, []byte) {
 		}
 		e[32] = lc
 		e[201] = []byte{1, 2, 3, 4, 5}
+	}
+	if second {
+		switch c.Second {
+		case "unknown-attribute-value":
+			v := append([]byte{}, e[200]...)
+			v[0] ^= 0xff
+			e[200] = v
+		case "additional-unknown-attribute":
+			e[202] = []byte{9}
+		case "aggregator":
+			e[7] = zvC18U32s(64998, 0x0a000064)
+		case "atomic-aggregate":
+			if _, on := e[6]; on {
+				delete(e, 6)
+			} else {
+				e[6] = []byte{}
+			}
+		case "med":
+			e[4] = zvC18U32s(77)
+		case "communities":
+			e[8] = append(append([]byte{}, e[8]...), zvC18U32s(65000<<16|999)...)
+		}
 	}
 	return e, nh
 }
@@ -346,9 +419,13 @@ func zvC18Run(c zvC18Case, pfxs []zvC18Pfx) zvC18Obs {
 		f.updateSender.Start(5 * time.Millisecond)
 		aro.Register(f.updateSender)
 
-		path := c.path()
+		path, path2 := c.pathOf(false), c.pathOf(true)
 		for _, q := range pfxs {
-			aro.AddPath(q.P, path)
+			if q.Second {
+				aro.AddPath(q.P, path2)
+			} else {
+				aro.AddPath(q.P, path)
+			}
 		}
 		if c.Tick {
 			vsched.Advance(20 * time.Millisecond)
@@ -421,19 +498,31 @@ func zvC18Check(r *vh.Run, c zvC18Case) bool {
 	if total > room-3 && total < room+3 {
 		r.Count("ref:total-within-2-bytes-of-room", 1)
 	}
-	if need > 1 || exact {
+	if need > 1 || exact || c.Second != "" {
 		r.Nontrivial(1)
+	}
+	if c.Second != "" {
+		r.Count("second-set:"+c.Second, 1)
 	}
 
 	o := zvC18Run(c, pfxs)
 	sig := func(clause string, extra ...string) map[string]string {
-		return vh.Sig(append([]string{"clause", clause, "family", zvC18Fams[c.Fam], "addpath", fmt.Sprint(c.AP), "profile", zvC18Profiles[c.Profile]}, extra...)...)
+		kv := append([]string{"clause", clause, "family", zvC18Fams[c.Fam], "addpath", fmt.Sprint(c.AP), "profile", zvC18Profiles[c.Profile]}, extra...)
+		if c.Second != "" {
+			kv = append(kv, "second_set_differs_in", c.Second)
+		}
+		return vh.Sig(kv...)
 	}
 	if o.Status != vsched.Completed {
 		r.Violation(sig("run-"+o.Status.String()), c, "case {%s}: execution %s: %.400s", c, o.Status, o.Crash)
 		return true
 	}
-	want, wantNH := c.expected()
+	want1, wantNH := c.expected()
+	want2, _ := c.expectedOf(true)
+	isSecond := map[string]bool{}
+	for _, q := range pfxs {
+		isSecond[q.Key] = q.Second
+	}
 	got := map[string]int{}
 	updates, maxLen := 0, 0
 	for _, m := range o.Msgs {
@@ -462,22 +551,37 @@ func zvC18Check(r *vh.Run, c zvC18Case) bool {
 		for _, a := range m.Announced {
 			got[fmt.Sprintf("%d:%s", a.AFI, a.Prefix)]++
 		}
-		// attributes
-		var ks []int
-		for k := range want {
-			ks = append(ks, int(k))
-		}
-		for k := range m.Attrs {
-			if _, ok := want[k]; !ok && k != 14 {
-				ks = append(ks, int(k))
+		// attributes: those of the set each announced prefix was queued with
+		sets := map[bool]bool{}
+		for _, a := range m.Announced {
+			if sec, queued := isSecond[fmt.Sprintf("%d:%s", a.AFI, a.Prefix)]; queued {
+				sets[sec] = true
 			}
 		}
-		sort.Ints(ks)
-		for _, k := range ks {
-			wv, wok := want[byte(k)]
-			gv, gok := m.Attrs[byte(k)]
-			if wok != gok || string(wv) != string(gv) {
-				r.Violation(sig("attributes-differ", "attr", fmt.Sprint(k)), c, "case {%s}: attribute %d: queued present=%v %d bytes %.40x, written present=%v %d bytes %.40x", c, k, wok, len(wv), wv, gok, len(gv), gv)
+		for _, sec := range []bool{false, true} {
+			if !sets[sec] {
+				continue
+			}
+			want, which := want1, ""
+			if sec {
+				want, which = want2, " (second set)"
+			}
+			var ks []int
+			for k := range want {
+				ks = append(ks, int(k))
+			}
+			for k := range m.Attrs {
+				if _, ok := want[k]; !ok && k != 14 {
+					ks = append(ks, int(k))
+				}
+			}
+			sort.Ints(ks)
+			for _, k := range ks {
+				wv, wok := want[byte(k)]
+				gv, gok := m.Attrs[byte(k)]
+				if wok != gok || string(wv) != string(gv) {
+					r.Violation(sig("attributes-differ", "attr", fmt.Sprint(k)), c, "case {%s}: attribute %d%s: queued present=%v %d bytes %.40x, written present=%v %d bytes %.40x", c, k, which, wok, len(wv), wv, gok, len(gv), gv)
+				}
 			}
 		}
 		if c.Fam != 0 {
@@ -581,7 +685,7 @@ func zvC18Enumerate(thorough bool, visit func(c zvC18Case) bool) {
 	if thorough {
 		profiles = []int{0, 1, 2}
 	}
-	hiA, hiAS, bulkL := 56, 24, 24
+	hiA, hiAS, bulkL := 40, 12, 24
 	if thorough {
 		hiA, hiAS, bulkL = 130, 60, 80
 	}
@@ -617,6 +721,18 @@ func zvC18Enumerate(thorough bool, visit func(c zvC18Case) bool) {
 							}
 						}
 					}
+					// regime "sets": two sets of prefixes queued at the same time (interleaved) whose paths differ in one attribute
+					for _, kind := range zvC18SecondKinds {
+						for n1 := 1; n1 <= 3; n1++ {
+							for n2 := 1; n2 <= 3; n2++ {
+								c := base
+								c.ASNs, c.Unk, c.PLen, c.N, c.Regime, c.Second, c.N2 = 2, 4, 24, n1, "sets", kind, n2
+								if !visit(c) {
+									return
+								}
+							}
+						}
+					}
 					// regime "tails": the last three prefixes of every size combination after a bulk that nearly fills a message
 					tailLens := plens
 					if fam == 2 && !thorough {
@@ -625,7 +741,7 @@ func zvC18Enumerate(thorough bool, visit func(c zvC18Case) bool) {
 					if fam == 2 && thorough {
 						tailLens = []int{0, 8, 16, 32, 48, 64, 96, 120, 128}
 					}
-					loT, hiT := 36, 38
+					loT, hiT := 37, 37
 					if thorough {
 						loT, hiT = 30, 44
 					}
@@ -689,17 +805,18 @@ func zvC18Enumerate(thorough bool, visit func(c zvC18Case) bool) {
 }
 
 var zvC18Required = []string{
-	"fam:ipv4", "fam:ipv4-mp", "fam:ipv6-mp", "profile:lean-ibgp", "profile:rich-ibgp-rrclient", "regime:boundary", "regime:tails", "regime:bulk", "addpath:on", "addpath:off",
+	"fam:ipv4", "fam:ipv4-mp", "fam:ipv6-mp", "profile:lean-ibgp", "profile:rich-ibgp-rrclient", "regime:boundary", "regime:tails", "regime:bulk", "regime:sets", "second-set:unknown-attribute-value", "second-set:aggregator", "second-set:med", "addpath:on", "addpath:off",
 	"flush:ticker", "flush:end-of-rib", "ref:one-message-suffices", "ref:two-messages-needed", "ref:three-or-more-messages-needed", "ref:a-message-can-be-filled-exactly", "ref:total-within-2-bytes-of-room",
 }
 
 func TestVerifC18(t *testing.T) {
+	debug.SetGCPercent(400)
 	r := vh.Start(t, "C18")
 	defer r.Finish()
 	r.Rule("sessions {IPv4 classic, IPv4 multiprotocol, IPv6 multiprotocol} x add-path TX {off,on} x attribute profile {lean iBGP, rich iBGP RR client (MED, ATOMIC_AGGREGATE, AGGREGATOR, 70 communities, 25 large communities, " +
 		"ORIGINATOR_ID, 65 cluster ids, 2 unknown attributes); thorough: lean eBGP with prepend} x flush {End-of-RIB, aggregation ticker} x three regimes: boundary = attribute size (unknown attribute length byte by byte; AS path length ASN by ASN) " +
-		"chosen so that R = 1..56 (thorough 130) bytes remain for NLRI, x every NLRI size class x every count 1..2.2R/size+2; tails = bulk filling a message up to 0..2 prefixes x every size combination of three more prefixes; " +
-		"bulk = small attributes (unknown attribute 0..24/80 bytes, byte by byte) x size classes >= /16 x counts around 1x and 2x capacity and 2.2x capacity. Oracle on the captured stream only. Non-trivial = cases needing more than one message or able to fill one exactly")
+		"chosen so that R = 1..40 (thorough 130) bytes remain for NLRI, x every NLRI size class x every count 1..2.2R/size+2; tails = bulk filling a message up to 0..2 prefixes x every size combination of three more prefixes; " +
+		"bulk = small attributes (unknown attribute 0..24/80 bytes, byte by byte) x size classes >= /16 x counts around 1x and 2x capacity and 2.2x capacity; sets = two sets of 1..3 prefixes queued interleaved whose paths differ in exactly one of {unknown attribute value, additional unknown attribute, AGGREGATOR, ATOMIC_AGGREGATE, MED, communities, AS path}, each prefix must carry the attributes of its own set. Oracle on the captured stream only. Non-trivial = cases needing more than one message or able to fill one exactly")
 	r.Require(zvC18Required...)
 	if r.IsReplay() {
 		var c zvC18Case
